@@ -1,6 +1,7 @@
 package main
 
 import (
+	"fmt"
 	"go/ast"
 	"go/constant"
 	"go/token"
@@ -733,49 +734,107 @@ func rulesC12(c *Ctx) {
 	ruleHeadersBeforeStatus(c, "R-C12-11", []string{pM}, 16)
 
 	c.Rule("R-C12-4", "header bindings are values, not views: the path recorded for each x-mcp-header annotation is a fresh slice, never an append onto the recursion's shared prefix", func() {
-		cp := c.Fn(pM, "", "collectParamHeaderAnnotations")
-		// the recursion's path prefix: the []string parameter
-		prefix := cp.ParamWhere(func(t types.Type) bool {
-			sl, ok := t.(*types.Slice)
+		root := c.Fn(pM, "", "extractParamHeaderAnnotations")
+		bindT := c.P.LookupType(pM, "paramHeaderBinding")
+		c.Need(bindT != nil, "type paramHeaderBinding")
+		isStrings := func(t types.Type) bool {
+			sl, ok := t.Underlying().(*types.Slice)
 			if !ok {
 				return false
 			}
-			b, ok := sl.Elem().(*types.Basic)
+			b, ok := sl.Elem().Underlying().(*types.Basic)
 			return ok && b.Kind() == types.String
-		})
-		c.Need(prefix != nil, "collectParamHeaderAnnotations: prefix parameter")
-		n := 0
-		for _, call := range cp.AllCalls(cp.Body, false) {
-			if cp.BuiltinName(call) == "append" && len(call.Args) >= 1 && cp.ObjOf(call.Args[0]) == types.Object(prefix) {
-				n++
-				c.Fail("collectParamHeaderAnnotations:append-onto-prefix", cp, call, "append(prefix, …) may write into the caller's backing array: sibling properties at depth >= 4 end up sharing one path, so Mcp-Param-* headers are generated from / validated against the wrong argument")
-			}
 		}
-		// the path variable is built by make + copy (or slices.Clone/Concat)
-		fresh := false
-		for _, w := range Writes(cp.Body, false) {
-			if w.RHS == nil {
-				continue
-			}
-			// the variable recorded as binding path: the value of the Path key in the paramHeaderBinding literal
-			var pathVar types.Object
-			inspectNoLit(cp.Body, func(n ast.Node) {
-				if kv, ok := n.(*ast.KeyValueExpr); ok && exprStr(kv.Key) == "Path" {
-					pathVar = cp.ObjOf(kv.Value)
+		// is e a slice nobody else holds: make, a literal, slices.Clone/Concat, append onto nil / a literal / such a slice
+		var freshExpr func(f *Func, e ast.Expr, depth int) bool
+		freshExpr = func(f *Func, e ast.Expr, depth int) bool {
+			e = ast.Unparen(e)
+			switch x := e.(type) {
+			case *ast.CompositeLit:
+				return true
+			case *ast.CallExpr:
+				if f.BuiltinName(x) == "make" {
+					return true
 				}
+				if fn := f.Callee(x); fn != nil && fn.Pkg() != nil && fn.Pkg().Path() == "slices" && (fn.Name() == "Clone" || fn.Name() == "Concat") {
+					return true
+				}
+				if f.BuiltinName(x) == "append" && len(x.Args) >= 1 {
+					return isNilIdent(x.Args[0]) || freshExpr(f, x.Args[0], depth+1)
+				}
+				if len(x.Args) == 1 && f.Info().Types[x.Fun].IsType() {
+					return isNilIdent(x.Args[0]) || freshExpr(f, x.Args[0], depth+1) // []string(nil)
+				}
+			case *ast.Ident:
+				if depth > 3 {
+					return false
+				}
+				v, isVar := f.ObjOf(x).(*types.Var)
+				if !isVar || v.IsField() {
+					return false
+				}
+				for _, p := range f.Root().Params() {
+					if p == v {
+						return false
+					}
+				}
+				// a local: every definition is fresh (copy(dst, …) and indexed stores fill it, they do not rebind it)
+				n := 0
+				for _, w := range Writes(f.Root().Body, true) {
+					if f.ObjOf(w.LHS) != types.Object(v) {
+						continue
+					}
+					if _, isIx := ast.Unparen(w.LHS).(*ast.IndexExpr); isIx {
+						continue
+					}
+					n++
+					if ce, isC := ast.Unparen(w.RHS).(*ast.CallExpr); isC && f.BuiltinName(ce) == "append" && len(ce.Args) >= 1 && f.ObjOf(ce.Args[0]) == types.Object(v) {
+						continue // grows itself: as fresh as its other definitions
+					}
+					if vs, isVS := w.Stmt.(*ast.ValueSpec); isVS && len(vs.Values) == 0 {
+						continue // var path []string: nil
+					}
+					if w.RHS == nil || !freshExpr(f, w.RHS, depth+1) {
+						return false
+					}
+				}
+				return n > 0
+			}
+			return false
+		}
+		nLit := 0
+		for _, f := range c.pkgClosure(root) {
+			ast.Inspect(f.Body, func(x ast.Node) bool {
+				cl, ok := x.(*ast.CompositeLit)
+				if !ok {
+					return true
+				}
+				t := f.TypeOf(cl)
+				if t == nil || !types.Identical(t, bindT) {
+					return true
+				}
+				for i, el := range cl.Elts {
+					var val ast.Expr
+					if kv, isKV := el.(*ast.KeyValueExpr); isKV {
+						if !isStrings(f.TypeOf(kv.Value)) {
+							continue
+						}
+						val = kv.Value
+					} else if isStrings(f.TypeOf(el)) {
+						val = el
+					}
+					if val == nil {
+						continue
+					}
+					_ = i
+					nLit++
+					c.touch(f)
+					c.Check(freshExpr(f, val, 0), "binding-path-is-fresh:"+f.Name(), f, cl, "the path stored in a paramHeaderBinding (%s) is a slice nobody else holds (make+copy, slices.Clone/Concat, append onto nil or a literal): append(prefix, name) may write into the backing array shared with sibling properties — at depth >= 4 they end up with one path, and Mcp-Param-* headers are generated from / validated against the wrong argument", exprStr(val))
+				}
+				return true
 			})
-			if ce, ok := ast.Unparen(w.RHS).(*ast.CallExpr); ok && pathVar != nil && cp.ObjOf(w.LHS) == pathVar {
-				if cp.BuiltinName(ce) == "make" {
-					fresh = true
-				}
-				if fn := cp.Callee(ce); fn != nil && fn.Pkg() != nil && fn.Pkg().Path() == "slices" && (fn.Name() == "Clone" || fn.Name() == "Concat") {
-					fresh = true
-				}
-			}
 		}
-		if n == 0 {
-			c.Check(fresh, "collectParamHeaderAnnotations:fresh-path", cp, nil, "each binding's path is a freshly allocated slice")
-		}
+		c.Pin("paramHeaderBinding literals behind extractParamHeaderAnnotations", nLit, 1)
 	})
 
 	c.Rule("R-C12-7", "the cancellation notice is a valid message of the protocol version in use: notifications/cancelled is always built from the request it cancels and inherits that request's _meta.protocolVersion / clientInfo / clientCapabilities (a notice without them is answered 400 by a 2026-07-28 server, which the streamable client treats as the end of the session)", func() {
@@ -1030,10 +1089,17 @@ func rulesC12(c *Ctx) {
 		}
 		c.Check(skips >= 4 && okNull, "skip-conditions-agree", gen, nil, "the client omits the header for absent, null and non-primitive arguments (%d skip branches); the server demands no header exactly for absent or null arguments", skips)
 		// base64 wrapper constants used on both sides
-		enc, dec := c.Fn(pM, "", "encodeBase64"), c.Fn(pM, "", "decodeHeaderValue")
+		enc, dec := c.Fn(pM, "", "encodeHeaderValue"), c.Fn(pM, "", "decodeHeaderValue")
 		for _, k := range []string{"base64Prefix", "base64Suffix"} {
 			o := c.Obj(pM, k)
-			c.Check(enc.Mentions(enc.Body, o) && dec.Mentions(dec.Body, o) && rb.Mentions(rb.Body, o), "base64-wrapper:"+k, enc, nil, "%s is used by the encoder, the decoder and the must-encode test (sentinel-looking plain values are encoded)", k)
+			// the encoder side is everything behind encodeHeaderValue; the must-encode test is part of it
+			encSide := false
+			for _, f := range c.pkgClosure(enc) {
+				if f != rb && f.Mentions(f.Body, o) {
+					encSide = true
+				}
+			}
+			c.Check(encSide && c.closureMentions(dec, o) && c.closureMentions(rb, o), "base64-wrapper:"+k, enc, nil, "%s is used by the encoder, the decoder and the must-encode test (sentinel-looking plain values are encoded)", k)
 		}
 		// integer range constants on both sides
 		up, pe := c.Fn(pM, "", "unmarshalPrimitive"), c.Fn(pM, "", "primitiveEqual")
@@ -1101,6 +1167,89 @@ func rulesC12(c *Ctx) {
 				c.Check(okB && n >= 1, "integer-range:"+k+":inclusive:"+f.Name(), f, nil, "%s itself is accepted (the refusing comparison is strict)", k)
 			}
 		}
+	})
+
+	c.Rule("R-C12-13", "the client's must-encode test classifies the bytes of an argument the way HTTP does: everything outside 0x20..0x7E (controls, DEL, non-ASCII) is treated like a control character, everything inside like a letter — decided by evaluating the range tests of the code behind encodeHeaderValue for the boundary values, not by their spelling", func() {
+		enc := c.Fn(pM, "", "encodeHeaderValue")
+		isElem := func(f *Func, e ast.Expr) bool {
+			id, ok := ast.Unparen(e).(*ast.Ident)
+			if !ok {
+				return false
+			}
+			if _, isVar := f.ObjOf(id).(*types.Var); !isVar {
+				return false
+			}
+			b, isB := f.TypeOf(id).Underlying().(*types.Basic)
+			return isB && (b.Kind() == types.Uint8 || b.Kind() == types.Int32)
+		}
+		n := 0
+		for _, f := range c.pkgClosure(enc) {
+			ranged := false
+			ast.Inspect(f.Body, func(x ast.Node) bool {
+				if a, y, op, ok := binaryCmp2(x); ok && (op == token.LSS || op == token.LEQ || op == token.GTR || op == token.GEQ) && isElem(f, a) {
+					if _, isC := f.ConstInt(y); isC {
+						ranged = true
+					}
+				}
+				return true
+			})
+			if !ranged {
+				continue
+			}
+			n++
+			c.touch(f)
+			g := f.Graph()
+			outcome := func(v int64) string {
+				leaf := func(e ast.Expr) tri {
+					a, y, op, ok := binaryCmp(e)
+					if !ok || !isElem(f, a) {
+						return triUnknown
+					}
+					z, isC := f.ConstInt(y)
+					if !isC {
+						return triUnknown
+					}
+					var r bool
+					switch op {
+					case token.EQL:
+						r = v == z
+					case token.NEQ:
+						r = v != z
+					case token.LSS:
+						r = v < z
+					case token.LEQ:
+						r = v <= z
+					case token.GTR:
+						r = v > z
+					case token.GEQ:
+						r = v >= z
+					default:
+						return triUnknown
+					}
+					if r {
+						return triTrue
+					}
+					return triFalse
+				}
+				reach := g.ReachUnder(leaf, nil)
+				var rs []string
+				for _, r := range f.Returns() {
+					if reach[g.VertexOf(r)] {
+						rs = append(rs, itoa(f.Line(r)))
+					}
+				}
+				return strings.Join(rs, ",")
+			}
+			ctl, letter := outcome(0x1F), outcome('A')
+			c.Check(ctl != letter, "byte-classes:"+f.Name()+":distinguishes", f, nil, "a control character and a letter reach different returns (returns reachable for 0x1F: %s, for 'A': %s)", ctl, letter)
+			for _, v := range []int64{0x00, 0x7F, 0x80, 0xFF} {
+				c.Check(outcome(v) == ctl, "byte-classes:"+f.Name()+":"+fmt.Sprintf("0x%02X", v)+"-like-a-control", f, nil, "0x%02X is classified like 0x1F (returns reachable: %s vs %s): a raw DEL or non-ASCII byte in a header value is refused by HTTP stacks, so the value must be wrapped", v, outcome(v), ctl)
+			}
+			for _, v := range []int64{0x20, 0x7E} {
+				c.Check(outcome(v) == letter, "byte-classes:"+f.Name()+":"+fmt.Sprintf("0x%02X", v)+"-like-a-letter", f, nil, "0x%02X is classified like 'A' (returns reachable: %s vs %s)", v, outcome(v), letter)
+			}
+		}
+		c.Pin("range tests on argument bytes behind encodeHeaderValue", n, 1)
 	})
 }
 
